@@ -162,6 +162,7 @@ PROPS["C14"] = {
 PROPS["C15"] = {
     "jobs": [
         {"name": "exhaustive", "pkg": "./c15", "run": "^TestExhaustive$", "shards": T(4, 16), "timeout": T(600, 3600)},
+        {"name": "level-sweep", "pkg": "./c15", "run": "^TestLevelSweep$", "timeout": T(600, 600)},
         {"name": "rapid", "pkg": "./c15", "run": "^TestRapid$", "rapid": T(8000, 150000), "shards": T(2, 16), "replay": "^TestReplay$"},
         {"name": "faults", "pkg": "./c15", "run": "^TestRapidFaults$", "rapid": T(6000, 150000), "shards": T(1, 8), "replay": "^TestReplay$"},
         {"name": "concurrent", "pkg": "./c15", "run": "^TestConcurrent$", "rapid": T(400, 4000), "shards": T(1, 4)},
